@@ -8,8 +8,9 @@ int main(void)
     u32 kind = KIND;
     u32 n = in_range(0, 3);
     i32 v[4]; for (int i = 0; i < 4; ++i) v[i] = (i32)in_u32();
-    int fixed3 = kind == 3 || kind == 4 || kind == 5 || kind == 6 || kind == 13 || kind == 14 || kind == 15 || kind == 16;
+    int fixed3 = kind == 3 || kind == 4 || kind == 5 || kind == 6 || kind == 13 || kind == 14 || kind == 15 || kind == 16 || (kind >= 22 && kind <= 26);
     int keyed = kind == 8 || kind == 18;
+    if (kind == 22 || kind == 23) for (int i = 0; i < 4; ++i) ASSUME(v[i] >= -128 && v[i] <= 127);   /* char elements, every value incl. 0 */
     if (fixed3) n = 3;
     if (kind == 9) n = 1;
     if (keyed) { /* distinct keys so that the ordered container has exactly n elements */
@@ -17,7 +18,7 @@ int main(void)
     }
     struct visits o; memset(&o, 0, sizeof o);
     visit(kind, n, (u32*)v, (void*)&o);
-    int rev = kind >= 10 && kind < 20;
+    int rev = (kind >= 10 && kind < 20) || kind == 22 || kind == 26;
     CHECK(o.n == n, "C20: the loop body runs exactly once per element (also for empty ranges)");
     /* expected order */
     i32 want[4];
